@@ -206,6 +206,33 @@ theorem runT_logs_nodup_ids (cs : List (Nat × Op)) : ∀ (l : Log), (idsOf l).N
       | idle f => simp only [Spec.step] at h; split at h <;> cases h
     · exact ih _ (ids_nodup_step l t o hn) es h
 
+/-- A pending entry stays in the log, as it is, across ANY history that contains neither a reset
+    nor a response for its ID — however long, whatever else it does (drains, exports, duplicate
+    requests, other IDs' traffic, failing calls). -/
+theorem pending_stays (mid : List Op) : ∀ (l : Log) (t : Nat) (e : Ent), e ∈ l → e.done = false →
+    (∀ o ∈ mid, o ≠ .reset ∧ o ≠ .res e.id) → e ∈ Spec.after l t mid := by
+  induction mid with
+  | nil => intro l t e he _ _; exact he
+  | cons o os ih =>
+    intro l t e he hp hm
+    have ho := hm o (by simp)
+    refine ih _ (t + 1) e ?_ hp (fun o' h' => hm o' (List.mem_cons_of_mem _ h'))
+    cases o with
+    | req id =>
+      simp only [Spec.step, Spec.req]; split
+      · exact he
+      · exact List.mem_append_left _ he
+    | res id =>
+      have hne : e.id ≠ id := fun h => ho.2 (by rw [h])
+      simp only [Spec.step, Spec.res, List.mem_map]
+      exact ⟨e, he, by simp [hne]⟩
+    | exp => exact he
+    | xreset =>
+      simp only [Spec.step, List.mem_filter]
+      exact ⟨he, by simp [hp]⟩
+    | reset => exact absurd rfl ho.1
+    | idle f => exact he
+
 /-! ## The concurrent machine -/
 
 namespace Conc
